@@ -215,7 +215,7 @@ def leaf_name_ownership(ctx, cg, ef):
             if w.field in LEAF_FIELDS:
                 writers.setdefault(f, []).append(w)
     for f, ws in writers.items():
-        res.check(f.qualname in LEAF_OWNERS, 'R-OWN.leaf', f.fq, "writer of XSDElement._xml_elements is one of the owner functions",
+        res.check(f.qualname.split('.<locals>')[0] in LEAF_OWNERS, 'R-OWN.leaf', f.fq, "writer of XSDElement._xml_elements is one of the owner functions",
                   fail_detail=f"{short(ws[0].node, 80)}; owners: {sorted(LEAF_OWNERS)}", key=f"R-OWN.leaf|writer|{f.qualname}", line=ws[0].node.lineno)
     res.floor('R-OWN.leaf writers', len(writers), 4)
     # add_xml_element: append after the name test
